@@ -223,6 +223,33 @@ def check_phi(case, ctx):
             ctx.label("lower-tail")
 
 
+def check_far(case, ctx):
+    """Beyond the swept interval the statement still promises finite values in range ('for every finite x')."""
+    x, t = case["x"], case["t"]
+    _, v, w, vt, wt = funcs()
+    try:
+        vals = {"v": v(x, t), "w": w(x, t), "vt": vt(x, t), "wt": wt(x, t)}
+    except Exception as e:  # noqa: BLE001
+        raise Violation("far:raised", f"v/w/vt/wt({x!r}, {t!r}) raised {type(e).__name__}: {e}") from None
+    ctx.called(4)
+    for name, val in vals.items():
+        _fin(name, val, x, t)
+    slack = 1e-13 / t
+    if vals["v"] < 0:
+        raise Violation("far:v-negative", f"v({x!r}, {t!r}) = {vals['v']!r}")
+    for name in ("w", "wt"):
+        if not (-slack <= vals[name] <= 1 + slack):
+            raise Violation(f"far:{name}-range", f"{name}({x!r}, {t!r}) = {vals[name]!r}")
+    ctx.label("x<0" if x < 0 else "x>0")
+    ctx.nontrivial_if(abs(x) > 1e3)
+
+
+@st.composite
+def far_points(draw):
+    mag = draw(st.one_of(st.floats(math.log10(40.0), 308.0).map(lambda u: 10.0 ** u), st.sampled_from([40.0, 1e3, 1e16, 1e154, 1.3407807929942597e154, 1e200, 1.7976931348623157e308])))
+    return {"x": mag * draw(st.sampled_from([1.0, -1.0])), "t": draw(T_STRAT)}
+
+
 def unif(lo, hi):
     # st.floats over a bounded range is close to uniform (measured), with some extra mass near 0 and at the bounds;
     # bounded st.integers is heavily biased to small values and must not be used for sweeps.
@@ -279,6 +306,8 @@ PROPERTY = Property(
         Clause(name="threshold-ulp-walks", strategy=walks(), check=check_walk, quick=96, thorough=3200,
                rule="for one t, every float within +-64 ulps of one branch threshold (v/w guard, wt guard, vt guard, pdf underflow) or the zero/denormal set, "
                     "both signs; non-trivial = at least one point evaluated"),
+        Clause(name="far-range", strategy=far_points(), check=check_far, quick=4000, thorough=60000,
+               rule="|x| from 40 up to the largest double (log-uniform), both signs: finite values, v >= 0, w and wt in [0, 1]; non-trivial = |x| > 1000"),
         Clause(name="phi", strategy=phis(), check=check_phi, quick=6000, thorough=100000,
                rule="x in [-37.5, 38] (half of them in the lower tail) and +-64-ulp walks at -37.5, 0, +-8.3, the guard; non-trivial = x < -5 or a walk"),
     ],
